@@ -541,3 +541,40 @@ for _c in list(_REG):
             _c2.prop = prop
             _c2.name = prop + '/tt2.sector_select'
             _REG.append(_c2)
+
+# ---------------------------------------------------------------- emulated Type 3 Tag (the library serves the tag)
+# The reader side (Type3Tag.write_to_ndef_service / read_from_ndef_service, the functions the Type 3 write and
+# read proofs above replace by the ghost tag T3NdefTag) runs against the real Type3TagEmulation.process_command
+# over a loopback link, the application memory behind the NDEF services as examples/tagtool.py keeps it.  The
+# postconditions are those of the ghost tag's commands - the emulated tag refines the ghost tag - so the write and
+# read contracts above carry over to it.  BOUNDED in the number of blocks per command (list parsing loops of the
+# emulation are unrolled); block numbers (2 and 3 octet list elements), contents and memory size are symbolic.
+T3EMU = 'nfc.tag.tt3:Type3TagEmulation'
+for _n, _hi in ((1, 0xFFFF), (2, 0xFFFF), (3, 0xFFFF), (8, 255), (15, 255)):
+    _emu = lambda: Obj(T3EMU, idm=Bytes(8, 8, mutable=True), pmm=Bytes(8, 8, mutable=True),   # noqa
+                       sys=Const(bytearray(b'\x12\xFC')), services=DictOf({}))
+    _mem = lambda: Obj('models.tag_models:EmuNdefMemory', _partial=False, mem=Bytes(0, None),   # noqa
+                       nblocks=Int(0, 0x10000), calls=0)
+    _tag = lambda: Obj('nfc.tag.tt3:Type3Tag', _clf=Obj('models.tag_models:LoopbackClf', _partial=False,  # noqa
+                                                        emu=Ref('emu'), commands=0),
+                       idm=Ref('emu.idm'), pmm=Bytes(8, 8, mutable=True), sys=Const(0x12FC))
+    _b = 'bounded: %d block(s) per command%s' % (_n, ', block numbers below 256' if _hi == 255 else '')
+    _inrange = ' and '.join('blocks[%d] < memory.nblocks' % i for i in range(_n))
+    if _n <= 12:
+        contract('drivers.c01:emu_write', 'C01',
+                 dict(emu=_emu(), memory=_mem(), tag=_tag(), data=Bytes(16 * _n, 16 * _n, mutable=True),
+                      blocks=Fixed([Int(0, _hi) for _ in range(_n)])),
+                 name='C01/tt3emu.write[%d]' % _n, bounded=_b,
+                 requires=['len(memory.mem) == 16 * memory.nblocks'],
+                 ensures=[('O-emu.write', 'memory.mem == t3_apply(old(memory.mem), old(bytes(data)), blocks)'),
+                          ('O-emu.inrange', _inrange),
+                          ('O-emu.once', 'tag.clf.commands == 1 and memory.calls == %d' % _n)],
+                 raises={'nfc.tag.tt3:Type3TagCommandError': ['not (%s)' % _inrange]})
+    contract('drivers.c01:emu_read', 'C01',
+             dict(emu=_emu(), memory=_mem(), tag=_tag(), blocks=Fixed([Int(0, _hi) for _ in range(_n)])),
+             name='C01/tt3emu.read[%d]' % _n, bounded=_b,
+             requires=['len(memory.mem) == 16 * memory.nblocks'],
+             ensures=[('O-emu.read', 'bytes(result) == t3_gather(memory.mem, blocks)'),
+                      ('O-emu.inrange', _inrange),
+                      ('O-emu.frame', 'memory.mem == old(memory.mem) and memory.calls == 0')],
+             raises={'nfc.tag.tt3:Type3TagCommandError': ['not (%s)' % _inrange]})
